@@ -201,6 +201,8 @@ def check_case(m):
     route = m["route"]
     nr, dr, nrho, drho = eamtab.grids(m)
     cls = ["kind:" + ("fs" if fs else "eam"), "route:" + route] + (["break_on_row"] if m.get("node_breaks") else [])
+    if m.get("int_returns") and not str(route).startswith(("potable", "main", "cli")):
+        cls.append("callables_return_ints")
     if nr % 4 or nrho % 4:
         cls.append("n%4!=0")
     els = eamtab.element_set(m)
